@@ -2,6 +2,7 @@ package checks
 
 import (
 	"fmt"
+	"strings"
 	"testing"
 
 	of "github.com/contiv/libOpenflow/openflow13"
@@ -176,9 +177,39 @@ func (m *histMachine) rules(c *ev.Collector, prop string, judge func(rt *rapid.T
 			m.poN.Add(p.n)
 			m.hist = append(m.hist, "packet_out.AddAction")
 		},
+		// The command of a message under construction is a plain field: a caller that removes a flow and installs
+		// it again changes it on the same object (delete, then add). A delete denotes no instructions / buckets;
+		// what was added stays with the object and is sent again once the command is not a delete.
+		"flowSetCommand": func(rt *rapid.T) {
+			cmd := []uint8{of.FC_ADD, of.FC_MODIFY, of.FC_MODIFY_STRICT, of.FC_DELETE, of.FC_DELETE_STRICT}[rapid.IntRange(0, 4).Draw(rt, "flow_command")]
+			m.fm.Command = cmd
+			m.fmN.Set("command", uint64(cmd))
+			m.hist = append(m.hist, fmt.Sprintf("flow.Command=%d", cmd))
+		},
+		"groupSetCommand": func(rt *rapid.T) {
+			cmd := uint16(rapid.IntRange(0, 2).Draw(rt, "group_command"))
+			m.gm.Command = cmd
+			m.gmN.Set("command", uint64(cmd))
+			m.hist = append(m.hist, fmt.Sprintf("group.Command=%d", cmd))
+		},
 		"": func(rt *rapid.T) {
-			judge(rt, "flow_mod", m.fm, m.fmN, m.hist)
-			judge(rt, "group_mod", m.gm, m.gmN, m.hist)
+			fmN, gmN := m.fmN, m.gmN
+			if m.fm.Command == of.FC_DELETE || m.fm.Command == of.FC_DELETE_STRICT {
+				fmN = m.fmN.Clone()
+				kids := fmN.Kids[:0]
+				for _, k := range fmN.Kids {
+					if !strings.HasPrefix(k.Kind, "instr.") {
+						kids = append(kids, k)
+					}
+				}
+				fmN.Kids = kids
+			}
+			if m.gm.Command == of.OFPGC_DELETE {
+				gmN = m.gmN.Clone()
+				gmN.Kids = nil
+			}
+			judge(rt, "flow_mod", m.fm, fmN, m.hist)
+			judge(rt, "group_mod", m.gm, gmN, m.hist)
 			judge(rt, "packet_out", m.po, m.poN, m.hist)
 		},
 	}
